@@ -247,6 +247,8 @@ void run_and_check(Case &c, Built &b, bool do_sprintf)
     r.do_sprintf = do_sprintf && !b.has_p;
     r.cap.reenter_every = g_reenter_every;
     r.cap.reenter_val = g_reenter_val;
+    // every fourth vsprintf-routed case also goes through the shim's vfdprintf (into a memory file)
+    r.do_fdprintf = do_sprintf && !b.has_p && (b.fmt.size() % 2 == 0);
     pf::run_both(r, b.fmt.c_str(), b.args);
     if (g_reenter_every && r.cap.inner_runs)
     {
@@ -266,6 +268,13 @@ void run_and_check(Case &c, Built &b, bool do_sprintf)
              r.host.c_str(), hexdump(r.host.data(), r.host.size(), 40).c_str());
     VP_CHECK(r.igris_ret == (int)r.cap.calls, "ret_vs_emitted", "returned %d, callback calls %ld", r.igris_ret, r.cap.calls);
     VP_CHECK(r.igris_ret == r.host_ret, "return_value", "returned %d, ISO %d", r.igris_ret, r.host_ret);
+    if (r.do_fdprintf)
+    {
+        c.label("fdprintf_route");
+        VP_CHECK(r.fd_ret == r.host_ret, "fdprintf_return", "vfdprintf returned %d, ISO %d", r.fd_ret, r.host_ret);
+        VP_CHECK(r.fd_out == r.host, "fdprintf_output", "vfdprintf wrote %zu bytes '%s', ISO %zu bytes '%s'", r.fd_out.size(), hexdump(r.fd_out.data(), r.fd_out.size(), 40).c_str(),
+                 r.host.size(), r.host.c_str());
+    }
     if (r.do_sprintf)
     {
         VP_CHECK(r.sp_ret == r.host_ret, "sprintf_return", "vsprintf returned %d, ISO %d", r.sp_ret, r.host_ret);
